@@ -589,6 +589,9 @@ def gen_requests(rng, n, read_only=False):
     items = ["/u/cal/e1.ics", "/u/cal/e2.ics", "/u/cal/e3.ics", "/u/cal/e4.ics", "/u/cal/t1.ics", "/u/cal/rec.ics",
              "/u/cal/nope.ics", "/u/cal2/x1.ics", "/u/ab/c1.vcf", "/u/ab/c2.vcf", "/u/missing/e.ics"]
     colls = ["/", "/u/", "/u/cal/", "/u/cal2/", "/u/ab/", "/u/plain/", "/u/missing/", "/other/"]
+    # every kind of target for the handlers that "do not touch the storage": items, collections with and without the
+    # trailing slash, missing names
+    anyp = items + colls + [c.rstrip("/") for c in colls if c != "/"] + ["/u/cal/e1.ics/"]
     tokens = ["", "http://radicale.org/ns/sync/" + "0" * 64, "http://radicale.org/ns/sync/bad", "junk", "@LAST"]
     out = []
     k = 0
@@ -623,9 +626,9 @@ def gen_requests(rng, n, read_only=False):
             if tok == "@LAST":
                 r["use_last_token"] = True
         elif m == "OPTIONS":
-            r["path"] = rng.choice(colls)
+            r["path"] = rng.choice(anyp)
         elif m == "POST":
-            r["path"] = rng.choice(["/u/cal/", "/.web/", "/.web/x"])
+            r["path"] = rng.choice(["/u/cal/", "/.web/", "/.web/x"] + anyp)
             r["data"] = "x"
         elif m == "PUT":
             which = rng.random()
